@@ -179,6 +179,10 @@ func snapRows(rs []*gobinlog.RowData) [][]ColSnap {
 		var row []ColSnap
 		if r != nil {
 			for _, c := range r.Columns {
+				if c == nil {
+					row = append(row, ColSnap{Name: "<nil column>"})
+					continue
+				}
 				cs := ColSnap{Name: c.Filed, Type: byte(c.Type), IsEmpty: c.IsEmpty, Nil: c.Data == nil}
 				if c.Data != nil {
 					cs.Data = append([]byte{}, c.Data...)
@@ -197,6 +201,11 @@ func Snapshot(t *gobinlog.Transaction) TxSnap {
 		NextFile: t.NextPosition.Filename, NextPos: t.NextPosition.Offset, TS: t.Timestamp,
 		NilEvents: t.Events == nil}
 	for _, e := range t.Events {
+		if e == nil {
+			// (a list whose entries the consumer has overwritten, delivered again)
+			s.Events = append(s.Events, EvSnap{Kind: "<nil event>"})
+			continue
+		}
 		es := EvSnap{Kind: e.Type.String(), DB: e.Table.DbName, Table: e.Table.TableName,
 			QDB: e.Query.Database, SQL: e.Query.SQL, TS: e.Timestamp}
 		if e.Query.Charset != nil {
@@ -286,13 +295,16 @@ func AliasProbe(t *gobinlog.Transaction) string {
 	}
 	var cells []cell
 	for ei, e := range t.Events {
+		if e == nil {
+			continue
+		}
 		for name, rs := range map[string][]*gobinlog.RowData{"after": e.RowValues, "before": e.RowIdentifies} {
 			for ri, r := range rs {
 				if r == nil {
 					continue
 				}
 				for ci, c := range r.Columns {
-					if len(c.Data) > 0 {
+					if c != nil && len(c.Data) > 0 {
 						cells = append(cells, cell{fmt.Sprintf("event %d %s row %d col %d (%s)", ei, name, ri, ci, c.Filed), c, append([]byte{}, c.Data...)})
 					}
 				}
@@ -316,12 +328,18 @@ func AliasProbe(t *gobinlog.Transaction) string {
 // Scribble overwrites every byte slice reachable from a delivered transaction.
 func Scribble(t *gobinlog.Transaction) {
 	for _, e := range t.Events {
+		if e == nil {
+			continue
+		}
 		for _, rs := range [][]*gobinlog.RowData{e.RowValues, e.RowIdentifies} {
 			for _, r := range rs {
 				if r == nil {
 					continue
 				}
 				for _, c := range r.Columns {
+					if c == nil {
+						continue
+					}
 					for i := range c.Data {
 						c.Data[i] = 0xAA
 					}
